@@ -146,12 +146,15 @@ def run(ctx):
     scns, _ = ctx.gen(SD, "OutputCopy", "Gen_C17_big.cfg" if big else "Gen_C17.cfg", timeout=1700,
                       label="scenario emission: every output tree of the bounded space")
     ctx.extra["scenarios_emitted"] = len(scns)
-    if not big and len(scns) > 1500:
-        # quick tier: every tree whose copy must succeed, a seeded sample of those that must fail
-        ok = [s for s in scns if not s["experr"]]
-        bad = [s for s in scns if s["experr"]]
-        rnd.shuffle(bad)
-        scns = ok + bad[:max(300, 1500 - len(ok))]
+    # every tree of the space is emitted; at code level: those whose copy must succeed first, then those that must
+    # fail, a seeded sample of each when there are too many (quick 1500, thorough 16000)
+    ok = [s for s in scns if not s["experr"]]
+    bad = [s for s in scns if s["experr"]]
+    rnd.shuffle(ok)
+    rnd.shuffle(bad)
+    cap_ok, cap_all = (12000, 16000) if big else (1200, 1500)
+    ok = ok[:cap_ok]
+    scns = ok + bad[:max(300, cap_all - len(ok))]
     nrand = 3000 if big else 400
     scns += [rand_tree(rnd) for _ in range(nrand)]
     for i, s in enumerate(scns):
